@@ -711,12 +711,6 @@ func compileAssignStmtLeft(context *funcContext, stmt *ast.AssignStmt) (int, []*
 				context.ConstIndex(LString(st.Value))
 			case ecUpvalue:
 				context.Upvalues.RegisterUnique(st.Value)
-			case ecLocal:
-				// a lone `local = expr` may be computed in place; with several targets or
-				// values every right-hand side must be evaluated before any store
-				if len(stmt.Lhs) == 1 && len(stmt.Rhs) == 1 {
-					ec.reg = context.FindLocalVar(st.Value)
-				}
 			}
 			acs = append(acs, &assigncontext{ec, 0, 0, false, false})
 		case *ast.AttrGetExpr:
